@@ -24,7 +24,7 @@ import subprocess
 import vcheck
 
 ANN = os.path.join(vcheck.EXTRACT, "keyshapes", "annotations.json")
-KEYLOG_FAMS = ()  # harness families whose written keys are cross-checked against the generated table
+KEYLOG_FAMS = ("ccm", "genesis")  # harness families whose written keys are cross-checked against the generated table
 
 
 # ----------------------------------------------------------------------------- mirror of the decision procedures
